@@ -4,7 +4,8 @@ import Solvor.Cut.Mirror
 import Solvor.Cut.MirrorBp
 /-! Cut: line-protocol handler.
 
-request `["case", mode, W, sizes, demands, cols, plan, obj, duals, fn, maxIter, init, maxNodes]`
+request `["case", mode, W, sizes, demands, cols, plan, obj, duals, fn, maxIter, init, maxNodes,
+         progInterval, progStop]`
   mode    : "cs" (cutting stock: admissible = fits in width `W` with piece `sizes`) or
             "cols" (custom: admissible = member of the explicit column list `cols`)
   plan    : `null` or the implementation's plan `[[pattern, count], ...]`
@@ -12,6 +13,8 @@ request `["case", mode, W, sizes, demands, cols, plan, obj, duals, fn, maxIter, 
   duals   : `null` or the dual vector the implementation priced last, exact rationals
   fn      : "solve_cg" / "solve_bp" (the corresponding mirror is run as well) or anything else
   maxIter : `max_iter` of the call; init : initial columns (custom mode); maxNodes : `max_nodes`
+  progInterval, progStop : `progress_interval` and the iteration from which the harness's
+            `on_progress` callback asks to stop (`null`: never; interval 0: no callback)
 reply `[opt, planOk, [feasOk, coversOk, objOk], rolls, [dualFeas, dualBound], mirror]`
   opt      : exact optimum (`minRolls`, proved minimal) or `null` (demands cannot be covered)
   planOk   : verified checker `checkPlan` on the implementation's plan and objective
@@ -40,12 +43,13 @@ def parsePlan (v : Val) : Option Plan := do
 
 def handle (line : String) : String :=
   match request line with
-  | some ("case", [mode, w, sizes, dem, cols, plan, obj, duals, fn, mi, init, mn]) =>
+  | some ("case", [mode, w, sizes, dem, cols, plan, obj, duals, fn, mi, init, mn, pi, ps]) =>
     match mode.toStr?, w.toNat?, sizes.toNats?, dem.toNats?, cols.toNatss?,
           Val.toOpt? parsePlan plan, Val.toOpt? Val.toRat? obj, Val.toOpt? Val.toRats? duals,
-          fn.toStr?, mi.toNat?, init.toNatss?, mn.toNat? with
+          fn.toStr?, mi.toNat?, init.toNatss?, mn.toNat?, pi.toNat?, Val.toOpt? Val.toNat? ps with
     | some mode, some w, some sizes, some dem, some cols, some plan, some obj, some duals,
-      some fn, some mi, some init, some mn =>
+      some fn, some mi, some init, some mn, some pi, some ps =>
+      let stop := Mirror.progStop pi ps
       let cs := mode == "cs"
       let feasB : Pat → Bool := if cs then fitsB w sizes else inColsB cols
       let opt : Option Nat := if cs then csOpt w sizes dem else minRolls cols dem dem.sum
@@ -72,8 +76,8 @@ def handle (line : String) : String :=
           let eps := Solvor.Gen.Cut.cgEps
           let o : Mirror.CgOut :=
             if dem.all (· == 0) then ⟨"OPTIMAL", [], 0, 0, List.replicate dem.length 0, some 0⟩
-            else if cs then Mirror.cgCuttingStock w sizes dem mi eps
-            else Mirror.cgCustom cols init dem mi eps
+            else if cs then Mirror.cgCuttingStock w sizes dem mi eps stop
+            else Mirror.cgCustom cols init dem mi eps stop
           let (f, b) := certify o.duals
           let raw := if cs then dualFeasible w sizes o.duals else dualFeasibleCols cols o.duals
           Val.arr [Val.str o.status,
@@ -85,8 +89,8 @@ def handle (line : String) : String :=
           let tol := Solvor.Gen.Cut.bpGapTol
           let o : Mirror.BpOut :=
             if dem.all (· == 0) then ⟨"OPTIMAL", some [], 0, 0, true, 0, true, List.replicate dem.length 0, some 0, false⟩
-            else if cs then Mirror.bpCuttingStock w sizes dem mi mn eps tol
-            else Mirror.bpCustom cols init dem mi mn eps tol
+            else if cs then Mirror.bpCuttingStock w sizes dem mi mn eps tol stop
+            else Mirror.bpCustom cols init dem mi mn eps tol stop
           let (f, b) := certify o.rootDuals
           let raw := if cs then dualFeasible w sizes o.rootDuals else dualFeasibleCols cols o.rootDuals
           let planOk := match o.plan with | some p => checkPlan feasB dem p o.total | none => false
@@ -101,7 +105,7 @@ def handle (line : String) : String :=
         else Val.null
       (Val.arr [Val.ofOpt (fun (n : Nat) => Val.int n) opt, Val.bool ok,
         Val.arr (parts.map Val.bool), Val.int r, dual, mirror]).render
-    | _, _, _, _, _, _, _, _, _, _, _, _ => err "bad arguments"
+    | _, _, _, _, _, _, _, _, _, _, _, _, _, _ => err "bad arguments"
   | _ => err "bad request"
 
 end Solvor.Cut
